@@ -1,7 +1,7 @@
 (* C06 — retained / duplicated / lost / gained mean what the documentation says. *)
 From Coq Require Import List Arith Bool String Permutation.
-From PyHam Require Import Tax Ortho Mapper Preds.
-From PyHam.proofs Require Import ForestFacts ClusterFacts PartitionFacts.
+From PyHam Require Import Tax Ortho Loader Mapper Preds Whole.
+From PyHam.proofs Require Import ForestFacts ClusterFacts PartitionFacts WholeFacts.
 Import ListNotations.
 
 (* The specification side is defined downward on the forest, independently of the up-walk:
@@ -10,7 +10,7 @@ Import ListNotations.
                           edges of the path from ho ("it or a HOG strictly between arose by duplication");
    - gains A D false r  : the nodes at D of family r that are not below any node at A. *)
 Theorem c06_meaning : forall t fo A D,
-  wfb t fo = true -> A <> D ->
+  wfbc t fo = true -> A <> D ->
   let m := hogmap fo A D in
   (forall a, In a (hm_gain m) <->
              exists r hy b, In r (fo_roots fo) /\ In (hy, b) (gains A D false r) /\ a = href hy) /\
@@ -24,7 +24,7 @@ Proof. exact meaning. Qed.
 Print Assumptions c06_meaning.
 
 (* the genes of the ancestral genome are exactly the nodes ANs enumerates *)
-Theorem c06_ancestral_genes : forall t fo A, wfb t fo = true -> genome_refs fo A = map href (ANs A fo).
+Theorem c06_ancestral_genes : forall t fo A, wfbc t fo = true -> genome_refs fo A = map href (ANs A fo).
 Proof. exact genome_refs_ANs. Qed.
 Print Assumptions c06_ancestral_genes.
 
@@ -32,6 +32,17 @@ Print Assumptions c06_ancestral_genes.
 Theorem c06_accessor : forall m, get_number_duplications m = hm_ndup m.
 Proof. reflexivity. Qed.
 Print Assumptions c06_accessor.
+
+(* end to end: for every consistent input the loaded forest satisfies the hypothesis (c02_consistent_forest) *)
+Theorem c06_every_consistent_input : forall t d hs,
+  consistent t d hs ->
+  exists l, load t d = Ok l /\ wfbc t (forest_of l) = true /\
+    forall A, genome_refs (forest_of l) A = map href (ANs A (forest_of l)).
+Proof.
+  intros t d hs Hc. destruct (consistent_forest t d hs Hc) as (l & El & Hw & _). exists l. split; [exact El|]. split; [exact Hw|].
+  intros A. exact (genome_refs_ANs t (forest_of l) A Hw).
+Qed.
+Print Assumptions c06_every_consistent_input.
 
 Definition m0 : hmeta := {| m_id := None; m_og := None; m_props := []; m_scores := []; m_synth := false |}.
 Definition tr : stree :=
@@ -43,7 +54,7 @@ Definition fam : hog :=
                                       (None, HGene "c1" [1; 1])])].
 Definition fo0 : forest := {| fo_tops := [fam]; fo_singles := [HGene "h9" [0; 0; 1]] |}.
 Example c06_nonvacuous :
-  wfb tr fo0 = true /\
+  wfbc tr fo0 = true /\
   map href (ANs [1] fo0) = [RHog 1] /\
   map (fun e => (href (fst e), snd e)) (dn [0; 0; 1] false (HHog 1 [1] m0 (hkids (snd (nth 1 (hkids fam) (None, fam))))))
     = [(RGene "h1", true); (RGene "h2", true)] /\
